@@ -1864,7 +1864,7 @@ func init() {
 			for _, ph := range []struct {
 				name string
 				run  func(*cfEnv)
-			}{{"pool", cfRunPool}, {"boundaries", cfRunBoundaries}, {"deep", cfRunDeep}, {"programs", cfRunPrograms}, {"random", cfRunRandom}, {"sessions", cfRunSessions}, {"regressions", cfRunRegressions}} {
+			}{{"pool", cfRunPool}, {"boundaries", cfRunBoundaries}, {"deep", cfRunDeep}, {"programs", cfRunPrograms}, {"random", cfRunRandom}, {"sessions", cfRunSessions}, {"scan-errors", cfRunScanErrors}, {"regressions", cfRunRegressions}} {
 				t0 := time.Now()
 				if e.hangs > 0 {
 					break
@@ -1891,4 +1891,47 @@ func init() {
 			return compileImpl(string(src)), nil
 		},
 	})
+}
+
+// cfRunScanErrors: scanner-level errors (illegal bytes: NUL, invalid UTF-8, a BOM that is not at the
+// start, characters that are no token) on N different lines, in the comments BEFORE the first token
+// (the first token is scanned when the parser is constructed), in comments after the first statement,
+// inside string literals and as tokens; N around the parser's error limit.  Compile, import as a
+// module and Eval must each answer with an error or Bytecode.
+func cfRunScanErrors(e *cfEnv) {
+	bad := []string{"\x00", "\xff", "\xc0\xaf", "\xef\xbb\xbf", "\u2028", "`", "$", "#", "\\"}
+	opts := []cfOpt{{}, {NoOpt: true}, {Limit: 1, Trace: 1, Mods: true}}
+	for _, n := range []int{1, 5, 9, 10, 11, 12, 13, 20, 50} {
+		for bi, b := range bad {
+			lines := func(pre, post string) string {
+				var sb strings.Builder
+				for i := 0; i < n; i++ {
+					sb.WriteString(pre + b + post + "\n")
+				}
+				return sb.String()
+			}
+			srcs := []string{
+				lines("// c ", " c") + "return 1\n",
+				"/*\n" + lines(" * ", "") + "*/\nreturn 1\n",
+				lines("/* ", " */") + "x := 1\nreturn x\n",
+				"x := 1\n" + lines("// c ", "") + "return x\n",
+				"x := 1\n" + lines("x = ", "") + "return x\n",
+				lines("", "") + "return 1\n",
+				"x := \"\"\n" + lines("x += \"", "\"") + "return x\n",
+				lines("// ", "") + lines("", " := 1"),
+			}
+			for si, src := range srcs {
+				if e.hangs > 0 {
+					return
+				}
+				label := fmt.Sprintf("scanerr[n=%d,bad=%d,form=%d]", n, bi, si)
+				for _, o := range opts {
+					e.compileOpt("scan-errors", label, src, o)
+				}
+				e.asModule("scan-errors", label, src, cfOpt{Mods: true})
+				e.evalSession("scan-errors", []cfFrag{{cfSetupOK, true}, {src, true}, {cfFollowUp, true}}, cfOpt{Mods: true})
+				e.c.Count("class:scan-errors")
+			}
+		}
+	}
 }
